@@ -1355,6 +1355,7 @@ static void warmup()
 	for (int k = 0; k < 2; ++k) { Spec q; q.fam = k ? F_ARGS : F_BUFFER; q.bytes = std::string("a\0b\0c", 5); q.rtype = 'B'; v.push_back(q); Spec d = q; d.dblbuf = true; d.grid = { 1, 2 }; v.push_back(d); }
 	{ Spec c; c.fam = F_CXXD; c.grid = { 1, 2 }; v.push_back(c); c.fam = F_CXXI; v.push_back(c); }
 	{ Spec a; a.fam = F_ITERARG; a.text = "3 0 1"; v.push_back(a); }
+	{ Spec b; b.fam = F_CXXBUF; b.bytes = std::string("a\0b\0", 4); b.rtype = 'B'; v.push_back(b); }
 	for (const Spec &s : v) {
 		Inst in;
 		if (in.create(s)) {
